@@ -20,7 +20,9 @@ tags = {}
 for path, r, out in res:
     k = int(re.search(r"shard_(\d+)\.v$", path).group(1))
     if r is None:
-        print("SHARD ERROR", path, out[-2000:]); continue
+        if not globals().get("_shown"):
+            print("SHARD ERROR", path, out[-1500:]); _shown = True
+        continue
     for tag, idx in r.items():
         tags.setdefault(tag, []).extend(i * check.NSHARDS + k for i in idx)
 cases = open(work + "/cases.jsonl").read().splitlines()
